@@ -90,6 +90,7 @@ def dcops(draw, min_vars=1, max_vars=6, max_dom=3, min_dom=1, max_constraints=7,
     objective = draw(st.sampled_from(list(objectives)))
     if nonneg_min and objective == "min":
         costs = nonneg_int_costs
+        kinds = ("matrix",)  # generated expressions have negative coefficients
     pool = [d for d in INT_DOMS if min_dom <= len(d) <= max_dom]
     if str_domains:
         pool = pool + [d for d in STR_DOMS if min_dom <= len(d) <= max_dom]
